@@ -54,6 +54,9 @@ def conv_all_targets(s, v):
     return [f"num.conv {s} {t} {showv(s, v)}" for t in ALL_TYPES]
 
 
+from .C08 import gen_c04_jsonxml, extra_checks_jsonxml
+
+
 def gen(tier, rng, boost=1):
     ops = []
     # ---- exhaustive small sources x all targets
@@ -131,4 +134,9 @@ def gen(tier, rng, boost=1):
             w = {"str8": "8", "str16": "16", "str32": "32"}[src]
             us = list(tx.encode("utf-8")) if w == "8" else ustr(tx)
             ops.append(f"num.policy {src} {t} {o} {m} {units(w, us)}")
+    ops += gen_c04_jsonxml(tier, rng, boost)
     return ops
+
+
+def extra_checks(ops, impl, res, known_classes, known_hits):
+    return list(extra_checks_jsonxml(ops, impl, res, known_classes, known_hits) or [])
